@@ -116,6 +116,26 @@ def dense_storm(rng, nw, nr):
     return ex + calls
 
 
+def same_add_storm(rng, fill=40):
+    """four writers adding and removing the SAME location of a volume that already has many locations (the scan of
+    the list is long), two readers: however the additions interleave, a lookup lists the location at most once and
+    one removal removes it"""
+    locs = [{"u": "f%02d" % i, "dc": "dc2"} for i in range(fill)] + [{"u": "x", "dc": "dc1"}, {"u": "y", "dc": "dc1"}]
+    ex = [{"ev": "reset", "dc": "dc1", "vids": VIDS, "locs": locs}]
+    for i in range(fill):
+        ex.append({"ev": "add", "v": 1, "u": "f%02d" % i})
+    calls = []
+    for p in (1, 2, 3, 4):
+        for _ in range(rng.randint(18, 26)):
+            calls.append({"ev": "call", "p": p, "op": "add" if rng.random() < 0.62 else "del", "v": 1,
+                          "u": "x" if rng.random() < 0.85 else "y", "api": ""})
+    for p in (5, 6):
+        for _ in range(30):
+            calls.append({"ev": "call", "p": p, "op": "lookup", "v": 1, "u": "", "api": rng.choice(["urls", "locs"])})
+    rng.shuffle(calls)
+    return ex + calls
+
+
 def write_script(path, execs):
     with open(path, "w") as f:
         for ex in execs:
@@ -176,6 +196,7 @@ def run(ctx):
         execs.append(master_client_exec(rng, rng.randint(6, 14)))
     storms = [random_storm(rng) for _ in range(1000 if th else 200)]
     storms += [dense_storm(rng, 60, 100) for _ in range(60 if th else 10)]
+    storms += [same_add_storm(rng) for _ in range(60 if th else 12)]
     binp = ctx.build("c35")
     s1 = os.path.join(ctx.out, "script-seq.ndjson")
     write_script(s1, execs)
